@@ -95,12 +95,33 @@ theorem Outcome.after_reach {τ} {M : PDM AS} {data : Bytes} {h : Handler τ} {f
 
 /-- contexts whose values are scanned with the helper scanners and are not offered to a handler -/
 structure VCtx (k : Kind) (c : Ctx) : Prop where
-  helpers : usesHelpers k c = true
   plain : c.handled = false
   notHTop : c ≠ .hTop
   notFast : (c == .farr || c == .fobj) = false
 
 theorem minus_not_final (c : Ctx) : isFinal ⟨c, .tok .minus⟩ = false := by cases c <;> rfl
+
+/-- fraction / exponent after a complete integer part, whichever way the machine scans them -/
+theorem num_tail_any {τ} (k : Kind) (c : Ctx) (hc : c ≠ .hTop)
+    (t : Tok) (ht : t = .zero ∨ t = .int) (data : Bytes) (h : Handler τ) (hsm : Small data)
+    (l : List UInt8) (fuel p : Nat) (st : List AS) (r : Regs τ) (hat : At data p l) (hp : r.p = p) (herr : r.err = none)
+    (hf : l.length + 1 ≤ fuel) (hnd : t = .int → ∀ b rest, l = b :: rest → isDigit b = false) :
+    match scanFrac l with
+    | some rest => Reach (machine k) data h fuel ⟨c, .tok t⟩ st r rest ⟨c, .after⟩ st
+    | none => IsErr (contL (machine k) data h fuel ⟨c, .tok t⟩ st r) := by
+  by_cases hu : usesHelpers k c = true
+  · exact num_tail_run k c hu hc t ht data h hsm l fuel p st r hat hp herr hf hnd
+  · exact num_tail_dfa k c (by simpa using hu) hc t ht data h hsm l fuel p st r hat hp hf hnd
+
+theorem int_run_any {τ} (k : Kind) (c : Ctx) (hc : c ≠ .hTop) (data : Bytes) (h : Handler τ) (hsm : Small data)
+    (l : List UInt8) (fuel p : Nat) (st : List AS) (r : Regs τ) (hat : At data p l) (hp : r.p = p) (herr : r.err = none)
+    (hf : l.length + 1 ≤ fuel) :
+    match scanFrac (skipDigits l) with
+    | some rest => Reach (machine k) data h fuel ⟨c, .tok .int⟩ st r rest ⟨c, .after⟩ st
+    | none => IsErr (contL (machine k) data h fuel ⟨c, .tok .int⟩ st r) := by
+  by_cases hu : usesHelpers k c = true
+  · exact int_run k c hu hc data h hsm l fuel p st r hat hp herr hf
+  · exact int_run_dfa k c (by simpa using hu) hc data h hsm l fuel p st r hat hp hf
 
 /-- after the optional minus sign -/
 theorem num1_run {τ} (k : Kind) (c : Ctx) (hv : VCtx k c) (data : Bytes) (h : Handler τ) (hsm : Small data)
@@ -118,7 +139,7 @@ theorem num1_run {τ} (k : Kind) (c : Ctx) (hv : VCtx k c) (data : Bytes) (h : H
   · subst hd
     simp only [beq_self_eq_true, if_true] at hstep
     rw [scanNum1_zero]
-    have key := num_tail_run k c hv.helpers hv.notHTop .zero (.inl rfl) data h hsm t fuel (p + 1) st
+    have key := num_tail_any k c hv.notHTop .zero (.inl rfl) data h hsm t fuel (p + 1) st
       { r with p := ((p + 1 : Nat) : Int) } hat' rfl herr hf' (by intro hh; cases hh)
     have hgo := loopL_goto (machine k) data h fuel s _ st r p 48 t hsm hp hat hstep
     cases hsc : scanFrac t with
@@ -140,7 +161,7 @@ theorem num1_run {τ} (k : Kind) (c : Ctx) (hv : VCtx k c) (data : Bytes) (h : H
     · simp only [h19, if_true] at hstep
       have h19' : (49 ≤ d && d ≤ 57) = true := h19
       simp only [h19', if_true]
-      have key := int_run k c hv.helpers hv.notHTop data h hsm t fuel (p + 1) st
+      have key := int_run_any k c hv.notHTop data h hsm t fuel (p + 1) st
         { r with p := ((p + 1 : Nat) : Int) } hat' rfl herr hf'
       have hgo := loopL_goto (machine k) data h fuel s _ st r p d t hsm hp hat hstep
       cases hsc : scanFrac (skipDigits t) with
@@ -352,11 +373,9 @@ theorem value_step {τ} (k : Kind) (hk : k ≠ .fast) (data : Bytes) (h : Handle
     rw [scanNumber_other b rest h45]
     exact num1_run k c hv data h hsm s b rest hstep (fuel + 1) p st r hat hp herr hf
 
-theorem vctx_arr (k : Kind) (hk : k ≠ .fast) : VCtx k .arr :=
-  ⟨by cases k <;> first | rfl | exact absurd rfl hk, rfl, by decide, rfl⟩
+theorem vctx_arr (k : Kind) : VCtx k .arr := ⟨rfl, by decide, rfl⟩
 
-theorem vctx_obj (k : Kind) (hk : k ≠ .fast) : VCtx k .obj :=
-  ⟨by cases k <;> first | rfl | exact absurd rfl hk, rfl, by decide, rfl⟩
+theorem vctx_obj (k : Kind) : VCtx k .obj := ⟨rfl, by decide, rfl⟩
 
 theorem scanValue_nil (mdv : Option Nat) (sf d : Nat) : scanValue mdv sf d [] = none := by
   cases sf <;> rfl
@@ -371,7 +390,7 @@ theorem arr_value_then {τ} (k : Kind) (hk : k ≠ .fast) (data : Bytes) (h : Ha
       (match scanValue (md k) sf (st.length + 1) (b :: rest) with
         | none => none
         | some r1 => scanArr (md k) sf (st.length + 1) false r1) ret st := by
-  have key := hV .arr (vctx_arr k hk) s b rest hstep fuel p (ret :: st) r hat hp herr hf hsf
+  have key := hV .arr (vctx_arr k) s b rest hstep fuel p (ret :: st) r hat hp herr hf hsf
   simp only [List.length_cons] at key
   cases hsv : scanValue (md k) sf (st.length + 1) (b :: rest) with
   | none => rw [hsv] at key; exact key
@@ -566,7 +585,7 @@ theorem obj_value_then {τ} (k : Kind) (hk : k ≠ .fast) (data : Bytes) (h : Ha
       (match scanValue (md k) sf (st.length + 1) (b :: rest) with
         | none => none
         | some r1 => scanObj (md k) sf (st.length + 1) false r1) ret st := by
-  have key := hV .obj (vctx_obj k hk) s b rest hstep fuel p (ret :: st) r hat hp herr hf hsf
+  have key := hV .obj (vctx_obj k) s b rest hstep fuel p (ret :: st) r hat hp herr hf hsf
   simp only [List.length_cons] at key
   cases hsv : scanValue (md k) sf (st.length + 1) (b :: rest) with
   | none => rw [hsv] at key; exact key
